@@ -6,7 +6,8 @@ CONSTANTS Lo, Hi, Sizes, TLo, THi, TSizes     \* offsets range over -Lo..Hi (cfg
 Bases == {"northup", "mirrorx", "flipy", "rot90", "pythag", "nonsquare"}
 Rects(lo, hi, sz) == {Rect(x, y, w, h) : x \in lo..hi, y \in lo..hi, w \in sz, h \in sz}
 \* overlapping, nested, touching and separated (by a gap along x, y or both) boxes
-BBoxes == {<<l, b, l + w, b + h>> : l \in {0, 1, 5}, b \in {0, 1, 6}, w \in {1, 2}, h \in {1, 3}}
+\* ... and boxes without area: a vertical segment, a horizontal one, a point (bounding boxes of lines and points)
+BBoxes == {<<l, b, l + w, b + h>> : l \in {0, 1, 5}, b \in {0, 1, 6}, w \in {1, 2}, h \in {1, 3}} \cup {<<1, 1, 1, 3>>, <<0, 6, 2, 6>>, <<5, 0, 5, 0>>, <<7, 2, 7, 2>>}
 
 CasesFor(ch) ==
   CASE ch.k = "pair" -> {[op |-> "pair", base |-> ch.base, a |-> ch.a, b |-> b] : b \in Rects(-Lo, Hi, Sizes)}
@@ -27,6 +28,11 @@ CasesFor(ch) ==
     [] ch.k = "enclosing" -> {x \in {[op |-> "enclosing", base |-> ch.base, a |-> ch.a, reg |-> <<x0, y0, x0 + sx, y0 + sy>>, crs |-> cm, poly |-> pm] :
                            x0 \in {-9, -3, 1, 6}, y0 \in {-6, -1, 2, 7}, sx \in {1, 2, 5, 9}, sy \in {1, 3, 6}, cm \in {"same", "other"}, pm \in {"bbox", "polygon"}} :
                               \A i \in 1..4 : x.reg[i] % 4 # 0}
+                         \* regions whose edges lie exactly ON pixel edges, on the grids where that is exact in floating point (integer / dyadic axis-aligned
+                         \* affines): the enclosing box is then exactly that pixel rectangle - not a pixel more
+                         \cup (IF ch.base \in {"northup", "mirrorx", "flipy", "nonsquare"} THEN
+                               {[op |-> "enclosing", base |-> ch.base, a |-> ch.a, reg |-> <<4 * x0, 4 * y0, 4 * (x0 + sx), 4 * (y0 + sy)>>, crs |-> "same", poly |-> pm] :
+                                  x0 \in {-2, 0, 1}, y0 \in {-1, 0, 2}, sx \in {1, 2, 5}, sy \in {1, 3}, pm \in {"bbox", "polygon"}} ELSE {})
     [] ch.k = "bbox" -> {[op |-> "bbox", p |-> ch.p, q |-> q, r |-> r] : q \in BBoxes, r \in BBoxes}
 
 Chunks == UNION { {[op |-> "chunk", k |-> "pair", base |-> bs, a |-> a] : bs \in Bases, a \in Rects(-Lo, Hi, Sizes)},
